@@ -253,6 +253,7 @@ class Machine(object):
         self.steps = 0
         self.max_steps = 5_000_000
         self.cur_call_ty = None
+        self.constenv = [{}]
         self.fork_logic = False  # symbolic && / || : fork instead of building a term
         self.vec_seed = None     # function(type string of a new Vec) -> initial items | None
 
@@ -283,6 +284,14 @@ class Machine(object):
             self.steps = 0
         th = body["thir"]
         env = {}
+        cenv = {}
+        fn = self.facts.fns.get(path)
+        if fn is not None and callee is not None and fn.get("const_generics") and callee.get("cargs"):
+            names = fn["const_generics"]
+            vals = callee["cargs"]
+            if len(names) == len(vals):
+                for nme, v in zip(names, vals):
+                    cenv[nme] = self.const_arg(v)
         params = th["params"]
         if len(params) != len(args):
             raise Unsupported("arity mismatch calling %s (%d params, %d args)" % (path, len(params), len(args)))
@@ -291,6 +300,7 @@ class Machine(object):
                 continue
             if not self.match(p["pat"], a, env):
                 raise Unsupported("parameter pattern did not match in %s" % path)
+        self.constenv.append(cenv)
         self.depth += 1
         try:
             try:
@@ -299,6 +309,26 @@ class Machine(object):
                 return r.v
         finally:
             self.depth -= 1
+            self.constenv.pop()
+
+    def const_arg(self, text):
+        """value of a const generic argument as printed by rustc (`20`, `MAX`, `0_usize`)"""
+        m = re.match(r"^(-?\d+)(_?[iu](8|16|32|64|128|size))?$", str(text).strip())
+        if m:
+            return int(m.group(1))
+        for fr in reversed(self.constenv):
+            if text in fr:
+                return fr[text]
+        return Term("const_param", text)
+
+    def e_const_param(self, e, env):
+        name = e.get("name")
+        for fr in reversed(self.constenv[-1:]):
+            if name in fr:
+                return fr[name]
+        if self.strict:
+            raise Unsupported("const generic parameter %s has no known value" % name, e.get("sp", ""))
+        return Term("const_param", name)
 
     def call_value(self, f, args, where=""):
         if isinstance(f, MutRef):
@@ -432,6 +462,8 @@ class Machine(object):
             else:
                 raise Unsupported("constant pattern %s" % pat.get("text"))
             if isinstance(v, Term):
+                if isinstance(c, bool):
+                    return self.decide(v) == c
                 return self.decide(Term("eq", v, c))
             return v == c
         if k == "range":
@@ -615,12 +647,11 @@ class Machine(object):
         if e.get("mut"):
             inner = e["e"]
             ik = inner["k"]
-            # &mut of a place: keep identity for aggregates, cell for scalars
             cur = self.eval(inner, env, place=True)
             if isinstance(cur, MutRef):
                 return cur
-            if isinstance(cur, (Adt, PyVec, PyIter)):
-                return cur  # mutable python object, shared identity
+            if isinstance(cur, (PyVec, PyIter)):
+                return cur  # containers are mutated in place through their methods
             if ik in ("var", "upvar", "field", "index", "deref"):
                 return MutRef(lambda: self.eval(inner, env, place=True),
                               lambda val: self.place_set(inner, val, env))
